@@ -45,10 +45,14 @@ def run(ctx) -> None:
     ctx.rule("c.mutator-scope", "a mutator / constructor writes only its receiver, never another operand", 8)
     ctx.rule("d.refusal-first", "in Vector.__setitem__ the check_writable call on the current storage dominates every "
                                 "write event on self; _promote is only reached from there or on a FRESH receiver", 2)
+    ctx.rule("d.refusal-atomic", "Table.__setitem__ writes several columns one after another, and each column write can be refused "
+                                 "with AliasError: before the first store every target column is asked check_writable (a loop over the same "
+                                 "target columns), so that a refused table assignment changes nothing", 1)
     ctx.section("a", _rule_a, ctx)
     ctx.section("b", _rule_b, ctx)
     ctx.section("c", _rule_c, ctx)
     ctx.section("d", _rule_d, ctx)
+    ctx.section("d-table", _rule_d_table, ctx)
     ctx.not_decided += [
         "mutable ELEMENTS (a list stored inside an object vector is shared by shallow copies)",
         "that copy()/slicing produce equal values (C07)",
@@ -523,6 +527,65 @@ def _rule_d(ctx) -> None:
            message="; ".join(problems))
 
 
+def _rule_d_table(ctx) -> None:
+    """Multi-column stores of Table.__setitem__ (a store inside a loop over the target columns) on the symx event log: an earlier
+    loop over the same target columns must call <tracker>.check_writable(column, id(column._underlying)) unconditionally."""
+    from ..sites2 import interp_of
+    from ..symx import flatten_conds, show, subterms
+    prog = ctx.prog
+    f = prog.func("table.Table.__setitem__")
+    it = interp_of(prog, f)
+    SELF = ("param", f.params[0])
+    cols = (("attr", SELF, "_underlying"), ("call", ("attr", SELF, "cols"), (), ()))
+    stores = [e for e in it.events if e.kind == "store" and e.term[0] == "sub" and e.term[1][0] == "sub" and e.term[1][1] in cols]
+    if not stores:
+        raise AnalysisError("Table.__setitem__: cell stores not found")
+
+    def dom(L):
+        lp = it.loops[L]
+        d = lp.domain if lp.domain is not None else lp.iter
+        return d
+
+    def col_loop(e):
+        """the loop whose element selects the column of store / check event e (None: a single column)"""
+        idx = e.term[1][2] if e.kind == "store" else e.term[2][0][2]
+        for L in reversed(e.loops):
+            if any(x[0] in ("elem", "idx") and x[-1] == L for x in subterms(idx)) or idx == ("idx", L):
+                return L
+        return None
+    checks = [e for e in it.events if e.kind == "call" and e.term[1][0] == "attr" and e.term[1][2] == "check_writable" and len(e.term[2]) == 2
+              and e.term[2][0][0] == "sub" and e.term[2][0][1] in cols
+              and e.term[2][1] == ("call", ("name", "id"), (("attr", e.term[2][0], "_underlying"),), ())]
+    first = min(e.seq for e in stores)
+    problems = []
+    n = 0
+    for m in stores:
+        L = col_loop(m)
+        if L is None:
+            continue                    # one column: its own __setitem__ refuses before it writes (d.refusal-first)
+        n += 1
+        D = dom(L)
+        targets = [d_ for d_ in (D[1] if D[0] == "tuple" else (D,))]
+        ok = False
+        for c in checks:
+            Lc = col_loop(c)
+            if Lc is None or c.seq > first:
+                continue
+            Dc = dom(Lc)
+            tc = [d_ for d_ in (Dc[1] if Dc[0] == "tuple" else (Dc,))]
+            same = any(t_ in targets for t_ in tc)
+            extra = [cd for cd in flatten_conds(c.conds) if cd not in flatten_conds(m.conds)]
+            if same and not extra and c.term[2][0][2] in (("elem", t_, Lc) for t_ in tc):
+                ok = True
+        if not ok:
+            problems.append(f"the columns written by `{show(m.term, it)[-50:]} = ...` (line {getattr(m.node, 'lineno', '?')}) are not all asked "
+                            f"check_writable before the first of them is written: a column that shares storage refuses with AliasError "
+                            f"after earlier columns have been changed")
+    ctx.ob("d.refusal-atomic", f, "table-setitem", not problems and n >= 1,
+           f"{n} multi-column store(s), each after a check_writable pass over the same target columns", stores[0].node,
+           message="; ".join(problems[:2]) or "Table.__setitem__: no multi-column store found")
+
+
 def _self_write_event(prog, f, node, tracker_names) -> Optional[str]:
     st = node.ast
     if node.kind != "stmt":
@@ -551,6 +614,13 @@ def _self_write_event(prog, f, node, tracker_names) -> Optional[str]:
 _V = "vector"
 _T = "table"
 MUTANTS = [
+    dict(id="table-setitem-no-writability-pass", module="table",
+         old="		for col_idx in target_indices:\n			_ALIAS_TRACKER.check_writable(self._underlying[col_idx], id(self._underlying[col_idx]._underlying))\n", new="",
+         rules=["d.refusal-atomic"], desc="the defect repaired by the refusal-atomic fix: AliasError after earlier columns were written"),
+    dict(id="table-setitem-checks-first-column-only", module="table",
+         old="		for col_idx in target_indices:\n			_ALIAS_TRACKER.check_writable(self._underlying[col_idx], id(self._underlying[col_idx]._underlying))\n",
+         new="		for col_idx in target_indices[:1]:\n			_ALIAS_TRACKER.check_writable(self._underlying[col_idx], id(self._underlying[col_idx]._underlying))\n",
+         rules=["d.refusal-atomic"]),
     dict(id="init-drops-copy", module=_T, old="			initial = tuple(vec.copy() for vec in initial)",
          new="			initial = tuple(vec for vec in initial)", rules=["b.fresh-columns"]),
     dict(id="replace-column-stores-donor", module=_T, old="		new_col = value.copy()\n", new="		new_col = value\n",
